@@ -56,8 +56,98 @@ func declareFun(name, decl string, deps ...string) {
 	funDeps[name] = deps
 }
 
+// arraySyms collects array-sorted free symbols.
+func arraySyms(t *Term) map[string]bool {
+	m := map[string]string{}
+	freeSyms(t, m)
+	out := map[string]bool{}
+	for k, s := range m {
+		if strings.HasPrefix(s, "(Array") && k != "alloc@0" && !strings.HasPrefix(k, "alloc!") {
+			out[k] = true
+		}
+	}
+	return out
+}
+
+// droppable: a hypothesis that is a quantified fact at top level (possibly guarded);
+// mixed formulas (e.g. b <=> (A && forall ...)) are always kept.
+func droppable(h *Term) bool {
+	switch h.Op {
+	case "forall":
+		return true
+	case "=>":
+		return len(h.Args) == 2 && droppable(h.Args[1])
+	}
+	return false
+}
+
+func isQuantified(t *Term) bool {
+	q := false
+	t.walk(func(x *Term) {
+		if x.Op == "forall" || x.Op == "exists" {
+			q = true
+		}
+	})
+	return q
+}
+
+// relevantHyps drops quantified hypotheses that are not connected to the goal
+// through shared array symbols (dropping hypotheses is always sound).
+func relevantHyps(hyps []*Term, goal *Term) []*Term {
+	S := arraySyms(goal)
+	type hinfo struct {
+		arrs  map[string]bool
+		quant bool
+		in    bool
+	}
+	infos := make([]hinfo, len(hyps))
+	anyQ := false
+	for i, h := range hyps {
+		infos[i] = hinfo{arrs: arraySyms(h), quant: droppable(h)}
+		if infos[i].quant {
+			anyQ = true
+		}
+	}
+	if !anyQ {
+		return hyps
+	}
+	for changed := true; changed; {
+		changed = false
+		for i := range infos {
+			hi := &infos[i]
+			if hi.in {
+				continue
+			}
+			share := len(hi.arrs) == 0
+			for a := range hi.arrs {
+				if S[a] {
+					share = true
+					break
+				}
+			}
+			if share {
+				hi.in = true
+				for a := range hi.arrs {
+					if !S[a] {
+						S[a] = true
+						changed = true
+					}
+				}
+			}
+		}
+	}
+	var out []*Term
+	for i, h := range hyps {
+		if infos[i].in || !infos[i].quant {
+			out = append(out, h)
+		}
+	}
+	return out
+}
+
 func smtFile(hyps []*Term, goal *Term, opts string, getModel bool, extra string) string {
 	var b bytes.Buffer
+	hyps = relevantHyps(hyps, goal)
 	b.WriteString(opts)
 	syms := map[string]string{}
 	used := map[string]bool{}
@@ -351,4 +441,16 @@ func runSmokes(sms []*smoke, workers int) []string {
 	wg.Wait()
 	sort.Strings(out)
 	return out
+}
+
+func runSolverMs(sp solverSpec, file string, ms int) (string, string, float64) {
+	t0 := time.Now()
+	ctx, cancel := context.WithTimeout(context.Background(), time.Duration(ms+200)*time.Millisecond)
+	defer cancel()
+	cmd := exec.CommandContext(ctx, "z3-new", fmt.Sprintf("-t:%d", ms), file)
+	var ob bytes.Buffer
+	cmd.Stdout = &ob
+	_ = cmd.Run()
+	first := strings.TrimSpace(strings.SplitN(ob.String(), "\n", 2)[0])
+	return first, ob.String(), time.Since(t0).Seconds()
 }
